@@ -108,6 +108,15 @@ async fn mutual(mut sim: Sim, seed: u64, gated: bool) -> Result<Value, String> {
             ok
         }));
     }
+    // the application may lose interest in a connect() call while the dial is under way (the
+    // future is dropped): the dial itself is the network's business and goes on regardless
+    let abandon: Option<usize> = if sim.rng.gen_range(0..3) == 0 { Some(sim.rng.gen_range(0..2)) } else { None };
+    if let Some(k) = abandon {
+        let d = [1u64, 1, 2, 3][sim.rng.gen_range(0..4)];
+        sim.sleep_ms(d).await;
+        tasks[k].abort();
+        sim.run.obs(-1, "obs.note", json!({"what": "connect() call abandoned", "k": k, "after_ms": d}));
+    }
     if gated {
         // all four connecting tasks finish and are parked before their manager sees them
         let got_d = gate::wait_held(rule_d, 2, 5_000).await;
@@ -134,9 +143,12 @@ async fn mutual(mut sim: Sim, seed: u64, gated: bool) -> Result<Value, String> {
         gate::release(rule_i);
     }
     let mut oks = 0;
-    for t in tasks {
-        if let Ok(Ok(true)) = tokio::time::timeout(std::time::Duration::from_secs(300), t).await {
-            oks += 1;
+    for (k, t) in tasks.into_iter().enumerate() {
+        match tokio::time::timeout(std::time::Duration::from_secs(300), t).await {
+            Ok(Ok(true)) => oks += 1,
+            // nobody was left to hear the result; without loss the dial finished all the same
+            Ok(Err(e)) if e.is_cancelled() && abandon == Some(k) && !lossy => oks += 1,
+            _ => {}
         }
     }
     // without loss both handshakes finish (with a connection limit the admission rule may refuse
